@@ -48,6 +48,27 @@ def hull_err(pts, c, hw):
     return row
 
 
+def ref_smooth_scores(pts, g, mode):
+    """the ranking score of the property, computed independently of knee_ranking.smooth_ranking:
+    (segment fit quality) x (relative height), where fit quality is the best-fit R2 (linear_fit.r2, tied by C16) of the
+    span from the cluster's first knee up to and including the candidate (left), of the span from the candidate up to
+    (excluding) the cluster's last knee (right), or their mean (linear); relative height = |peak - y| / sum of those."""
+    import kneeliverse.linear_fit as lf
+    x, y = pts[:, 0], pts[:, 1]
+    j, last = g[0], g[-1]
+    peak = max(y[k] for k in g)
+    fit, w = [], []
+    for k in g:
+        left = lf.r2(x[j:k + 1], y[j:k + 1])
+        right = lf.r2(x[k:last], y[k:last])
+        fit.append((left + right) / 2.0 if mode == 'linear' else (left if mode == 'left' else right))
+        w.append(abs(peak - y[k]))
+    sw = sum(w)
+    if sw != 0:
+        w = [v / sw for v in w]
+    return [float(a * b) for a, b in zip(fit, w)]
+
+
 def gs(rows):
     return ';'.join(core.rats(r) for r in rows) if rows else '-'
 
@@ -117,6 +138,10 @@ def one(ctx, pts, knees, link, t, mode, family):
         for g in G:
             sc = [float(v) for v in kr.smooth_ranking(pts, np.array(g, dtype=int), getattr(kr.ClusterRanking, mode))] if len(g) > 1 else [0.0] * len(g)
             rows.append(sc)
+            if len(g) > 1:
+                ref = ref_smooth_scores(pts, g, mode)
+                if any(math.isfinite(a) and math.isfinite(b) and abs(a - b) > 1e-12 * (abs(a) + abs(b)) + 1e-300 for a, b in zip(sc, ref)):
+                    ctx.fail('predicate', 'ranking-score-is-fit-quality-times-relative-height', f'knee_ranking.smooth_ranking[{mode}]', case, dict(cluster=g, impl=sc, expected=ref))
             if any(not math.isfinite(v) for v in sc):
                 nonfinite = True
             if len(set(sc)) < len(sc) and len(g) > 1:
